@@ -27,6 +27,7 @@ EXPLANATION = ("a: in search_recursive_with_execution (DFS) every assignment of 
                "Operator, and each value printer arm is read back to the same Value variant. e: find_candidate_rules falls back to the "
                "linear scan when the index proposes nothing.")
 EXPLANATION += " e (added): from every point where DFS records a solution, assuming depth > 0, rollback_undo_frame is unreachable before commit_undo_frame (a sub-goal's derivation stays in the facts for the rule above it; alternatives are rolled back at the root only)."
+EXPLANATION += ' f (added): between the rule list and add_candidate_rule there is no guard on search state (self.path, solutions, visited): every rule that passes the structural test is a candidate.'
 FLOORS = {"true_returns": 4, "emitted_tokens": 12, "parsers": 2}
 
 DFS = "backward::search::DepthFirstSearch"
@@ -43,6 +44,33 @@ def run(P, R, tier, cfg):
     _tables(P, R)
     _fallback(P, R)
     _subgoal_proofs_stay(P, R, fn)
+    _candidates_complete(P, R)
+
+
+def _candidates_complete(P, R):
+    """f. Bounded completeness needs every rule that could prove a sub-goal to become a candidate. The only filter allowed between
+    the rule list and add_candidate_rule is the structural test (rule_could_prove_*); a filter on search state - `self.path`
+    (which is not a clean stack: names of proven sub-goals stay on it after a dead end was rolled back), the solutions, a visited
+    set - drops rules that a later alternative needs."""
+    n = 0
+    for fn in sorted(P.fns.values(), key=lambda f: f.name):
+        if fn.impl_self != DFS or fn.kind == "closure":
+            continue
+        adds = [c for c in fn.calls() if c.bb in fn.normal_blocks() and c.resolved and c.resolved.endswith("::add_candidate_rule")]
+        for c in adds:
+            n += 1
+            extra = []
+            for g in A.guards_of(fn, c.bb):
+                txt = fmt_sym(g["cond"], maxdepth=8)
+                if any(k in txt for k in ("self.path", "self.solutions", "visited", "self.goals_explored")):
+                    extra.append("%s = %s" % (txt[:80], g["polarity"]))
+            if extra:
+                R.violate("f", "candidates-filtered-by-search-state:%s" % fn.short_name,
+                          "%s adds a rule as a candidate only under %s: a rule is left out because of where the search has been, not because it cannot prove the sub-goal - a goal with a derivation inside the depth bound is then reported unprovable" % (fn.short_name, extra), fn, c.line)
+            else:
+                R.hold("f", "%s: every rule that passes the structural test becomes a candidate (no filter on search state)" % fn.short_name, fn=fn, line=c.line)
+    if n == 0:
+        R.note("no add_candidate_rule call found in DepthFirstSearch")
 
 
 def _subgoal_proofs_stay(P, R, fn):
